@@ -172,6 +172,38 @@ Proof.
   rewrite (skipn_all2 (shrows o k l1)) by (rewrite shrows_length; lia). simpl.
   rewrite skipn_add. reflexivity.
 Qed.
+
+(* row r of a buffer whose first k rows are translated *)
+Lemma row_shrows o : forall k l (r : nat), (r < k)%nat -> ((r + 1) * length o <= length l)%nat ->
+  firstn (length o) (skipn (r * length o) (shrows o k l)) =
+  zipw Rplus o (firstn (length o) (skipn (r * length o) l)).
+Proof.
+  induction k as [|k IH]; intros l r Hr Hl; [lia|]. cbn [shrows].
+  assert (Hw : length (zipw Rplus o (firstn (length o) l)) = length o).
+  { rewrite zipw_length_min, firstn_length. lia. }
+  destruct r as [|r].
+  - simpl Nat.mul. cbn [skipn]. rewrite firstn_app_le by lia. apply firstn_all2. lia.
+  - rewrite skipn_app, Hw. rewrite (skipn_all2 (zipw Rplus o (firstn (length o) l))) by (rewrite Hw; simpl; lia).
+    replace (S r * length o - length o)%nat with (r * length o)%nat by (simpl; lia). cbn [app].
+    rewrite IH by (rewrite ?skipn_length; simpl in Hl; lia).
+    rewrite skipn_add. replace (length o + r * length o)%nat with (S r * length o)%nat by (simpl; lia). reflexivity.
+Qed.
+
+Lemma concat_shrows o : forall L : list (list R), Forall (fun r => length r = length o) L ->
+  shrows o (length L) (concat L) = concat (map (zipw Rplus o) L).
+Proof.
+  induction L as [|r L IH]; intros HF; [reflexivity|].
+  apply Forall_cons_iff in HF. destruct HF as [Hr HF]. cbn [length concat map shrows].
+  rewrite firstn_app_le, skipn_app_le by lia. rewrite <- Hr, firstn_all, skipn_all. cbn [app].
+  rewrite IH by exact HF. reflexivity.
+Qed.
+
+Lemma length_concat_uniform {A} (w : nat) : forall L : list (list A), Forall (fun r => length r = w) L ->
+  length (concat L) = (length L * w)%nat.
+Proof.
+  induction L as [|r L IH]; intros HF; [reflexivity|].
+  apply Forall_cons_iff in HF. destruct HF as [Hr HF]. cbn [concat length]. rewrite app_length, Hr, IH by exact HF. lia.
+Qed.
 End Lists.
 
 (* ------------------------------------------------------------------------------------------ *)
@@ -251,6 +283,77 @@ Proof.
   { intros q m Lq. unfold amap2, amask, of_list, vsh. cbn [shape dat nsub NumR].
     rewrite mask_plus_length by lia. f_equal. apply mask_diff_plus; lia. }
   unfold shrink. cbv zeta. rewrite El, Eu, !(Em l) by exact Ll. rewrite !(Em u) by exact Lu. reflexivity.
+Qed.
+
+Lemma arr_eq {A} (u v : arr A) : shape u = shape v -> dat u = dat v -> u = v.
+Proof. destruct u, v. simpl. intros -> ->. reflexivity. Qed.
+
+(* ---- the returned polyline ray[count::-1] ---- *)
+Lemma get_sub_row_dat (r : arr R) (n w k : Z) : shape r = [n; w] ->
+  dat (get_sub r [k]) = firstn (Z.to_nat w) (skipn (Z.to_nat (k * w)) (dat r)).
+Proof.
+  intros E. unfold get_sub. rewrite E. change (length [k]) with 1%nat. cbn [skipn dat]. rewrite sub_off_row2.
+  unfold prodZ. cbn [fold_right]. rewrite Z.mul_1_r. reflexivity.
+Qed.
+
+(* every row of the polyline r translated by o *)
+Definition addvec (o : list R) (r : arr R) : arr R := shray o (dim r 0%nat) r.
+
+Lemma rev_prefix_rows (o : list R) (n c : Z) (r : arr R) :
+  shape r = [n; Z.of_nat (length o)] -> length (dat r) = (Z.to_nat n * length o)%nat -> (0 <= c < n)%Z ->
+  Forall (fun row => length row = length o)
+         (map (fun q : nat => dat (get_sub r [Z.of_nat q])) (seq 0 (Z.to_nat (c + 1)))).
+Proof.
+  intros Sr Lr Hc. apply Forall_forall. intros row Hrow. apply in_map_iff in Hrow.
+  destruct Hrow as (q & <- & Hq). apply in_seq in Hq.
+  rewrite (get_sub_row_dat r n _ _ Sr), Nat2Z.id.
+  replace (Z.to_nat (Z.of_nat q * Z.of_nat (length o))) with (q * length o)%nat by nia.
+  rewrite firstn_length, skipn_length, Lr.
+  assert (q + 1 <= Z.to_nat n)%nat by lia. nia.
+Qed.
+
+Lemma length_rev_prefix (o : list R) (n c : Z) (r : arr R) :
+  shape r = [n; Z.of_nat (length o)] -> length (dat r) = (Z.to_nat n * length o)%nat -> (0 <= c < n)%Z ->
+  shape (rev_prefix r c) = [(c + 1)%Z; Z.of_nat (length o)] /\
+  length (dat (rev_prefix r c)) = (Z.to_nat (c + 1) * length o)%nat.
+Proof.
+  intros Sr Lr Hc. split; [apply (shape_rev_prefix r n); exact Sr|].
+  unfold rev_prefix. cbv zeta. cbn [dat].
+  rewrite (length_concat_uniform (length o)).
+  - rewrite rev_length, map_length, seq_length. reflexivity.
+  - apply Forall_rev. apply (rev_prefix_rows o n c r Sr Lr Hc).
+Qed.
+
+Lemma rev_prefix_shray (o : list R) (n c : Z) (r : arr R) :
+  shape r = [n; Z.of_nat (length o)] -> length (dat r) = (Z.to_nat n * length o)%nat -> (0 <= c < n)%Z ->
+  rev_prefix (shray o (c + 1) r) c = addvec o (rev_prefix r c).
+Proof.
+  intros Sr Lr Hc. unfold addvec. rewrite (dim2_0 _ _ _ (shape_rev_prefix r n _ c Sr)).
+  apply arr_eq.
+  { rewrite shape_shray, (shape_rev_prefix r n _ c Sr).
+    apply (shape_rev_prefix (shray o (c + 1) r) n). exact Sr. }
+  unfold shray at 2. cbn [dat]. unfold rev_prefix. cbv zeta. cbn [dat].
+  set (rows := map (fun q : nat => dat (get_sub r [Z.of_nat q])) (seq 0 (Z.to_nat (c + 1)))).
+  assert (E : map (fun q : nat => dat (get_sub (shray o (c + 1) r) [Z.of_nat q])) (seq 0 (Z.to_nat (c + 1))) =
+              map (zipw Rplus o) rows).
+  { unfold rows. rewrite map_map. apply map_ext_in. intros q Hq. apply in_seq in Hq.
+    rewrite (get_sub_row_dat (shray o (c + 1) r) n _ _ Sr), (get_sub_row_dat r n _ _ Sr), Nat2Z.id.
+    replace (Z.to_nat (Z.of_nat q * Z.of_nat (length o))) with (q * length o)%nat by nia.
+    unfold shray. cbn [dat]. apply row_shrows; [lia|]. rewrite Lr.
+    assert (q + 1 <= Z.to_nat n)%nat by lia. nia. }
+  rewrite E, <- map_rev.
+  rewrite <- (concat_shrows o (rev rows)) by (apply Forall_rev; apply (rev_prefix_rows o n c r Sr Lr Hc)).
+  unfold rows. rewrite rev_length, map_length, seq_length. reflexivity.
+Qed.
+
+Lemma get_addvec (o : list R) (m i j : Z) (r : arr R) :
+  shape r = [m; Z.of_nat (length o)] -> length (dat r) = (Z.to_nat m * length o)%nat ->
+  (0 <= i < m)%Z -> (0 <= j < Z.of_nat (length o))%Z ->
+  get 0 (addvec o r) [i; j] = nth (Z.to_nat j) o 0 + get 0 r [i; j].
+Proof.
+  intros Sr Lr Hi Hj. unfold addvec. rewrite (dim2_0 _ _ _ Sr).
+  rewrite (get_shray o m m i j r Sr Lr Hi Hj).
+  destruct (Z.ltb_spec i m); [reflexivity|lia].
 Qed.
 End Arrays.
 
@@ -624,3 +727,277 @@ Proof.
     reflexivity.
 Qed.
 End Body2.
+
+Lemma RInv_keep w M (c : Z) (d l : arr R) (n : Z) (p r u : arr R) (c' : Z) (d' l' : arr R) (n' : Z) (p' u' : arr R) :
+  RInv w M (c, d, l, n, p, r, u) -> 0 <= c' -> RInv w M (c', d', l', n', p', r, u').
+Proof. intros (Hc & Sr & Lr) Hc'. split; [exact Hc'|]. split; [exact Sr|exact Lr]. Qed.
+Lemma RInv_store w M (c : Z) (d l : arr R) (n : Z) (p r u : arr R) (c' : Z) (d' l' : arr R) (n' : Z) (p' u' pp : arr R) idx :
+  RInv w M (c, d, l, n, p, r, u) -> 0 <= c' -> RInv w M (c', d', l', n', p', set_sub r idx pp, u').
+Proof.
+  intros (Hc & Sr & Lr) Hc'. split; [exact Hc'|]. split; [exact Sr|].
+  cbn [s_ray fst snd set_sub dat]. rewrite upd_block_length. exact Lr.
+Qed.
+
+Section Inv2.
+Variables (z x zgrad xgrad : arr R) (zsrc xsrc stepsize : R) (M : Z).
+Local Notation St := (@St2 R).
+
+Lemma gbody2_inv hg (s s' : St) : InvS hg s -> RInv 2 M s ->
+  (gbody2 z x zgrad xgrad zsrc xsrc stepsize M hg s = Next s' \/
+   gbody2 z x zgrad xgrad zsrc xsrc stepsize M hg s = Brk s') ->
+  InvS hg s' /\ RInv 2 M s'.
+Proof.
+  intros Hi Hr. pose proof Hi as (Hp & Hd & Hlu). pose proof Hr as (Hc & _).
+  destruct s as [[[[[[c d] l] n] p] r] u]. cbn [s_count s_delta s_lower s_nfree s_pcur s_ray s_upper fst snd] in *.
+  unfold gbody2. cbn [s_count s_delta s_lower s_nfree s_pcur s_ray s_upper fst snd].
+  destruct (btest _ _ _); [intros [E|E]; [discriminate|injection E as <-; split; assumption]|].
+  destruct (ngtb _ _); [|intros [E|E]; [discriminate|injection E as <-; split; assumption]].
+  pose proof (len2_ndelta2 z x zgrad xgrad stepsize d p Hd) as Hd'.
+  set (d' := ndelta2 z x zgrad xgrad stepsize d p) in *. clearbody d'.
+  destruct hg.
+  - destruct (Hlu eq_refl) as [Hl Hu].
+    set (fac := FteikCommon.shrink p d' l u). clearbody fac.
+    assert (Hp3 : vec2 (clamp2 z x (amap2 (@nsub R NumR) p (amap (fun e : R => nmul fac e) d')))).
+    { apply vec2_clamp2, vec2_amap2; [exact Hp|apply len2_amap; exact Hd']. }
+    set (p3 := clamp2 z x _) in *. clearbody p3.
+    destruct (nltb fac _).
+    + assert (Hp4 : vec2 (magnet 2 l u p3)).
+      { unfold magnet. apply vec2_for_list; [|exact Hp3]. intros ix q Hq. apply vec2_magnet1. exact Hq. }
+      set (p4 := magnet 2 l u p3) in *. clearbody p4.
+      assert (G : forall s0 : St, s0 = (c + 1, d', cells_lo2 z x l p4, 0, p4, set_sub r [c] p4, cells_up2 z x u p4) ->
+                  InvS true s0 /\ RInv 2 M s0).
+      { intros s0 ->. split.
+        - split; [exact Hp4|]. split; [exact Hd'|]. intros _.
+          split; [apply vec2_set, vec2_set, Hl|apply vec2_set, vec2_set, Hu].
+        - eapply RInv_store; [exact Hr|lia]. }
+      destruct (_ && _); intros [E|E]; try discriminate; injection E as <-; apply G; reflexivity.
+    + intros [E|E]; [|discriminate]. injection E as <-. split.
+      * split; [exact Hp3|]. split; [exact Hd'|]. intros _. split; assumption.
+      * eapply RInv_keep; [exact Hr|lia].
+  - assert (Hp3 : vec2 (clamp2 z x (amap2 (@nsub R NumR) p d'))).
+    { apply vec2_clamp2, vec2_amap2; [exact Hp|exact Hd']. }
+    set (p3 := clamp2 z x _) in *. clearbody p3.
+    intros [E|E]; [|discriminate]. injection E as <-. split.
+    + split; [exact Hp3|]. split; [exact Hd'|]. intros; discriminate.
+    + eapply RInv_store; [exact Hr|lia].
+Qed.
+End Inv2.
+
+(* ------------------------------------------------------------------------------------------ *)
+(* 6. (T1) the 2D core                                                                          *)
+(* ------------------------------------------------------------------------------------------ *)
+Lemma while_fuel_ext' {S} (c c' : S -> bool) (b b' : S -> ctl S) :
+  (forall s, c s = c' s) -> (forall s, b s = b' s) ->
+  forall fuel s, while_fuel fuel c b s = while_fuel fuel c' b' s.
+Proof.
+  intros Hc Hb. induction fuel as [|f IH]; intros s; simpl; [reflexivity|].
+  rewrite Hc, Hb. destruct (c' s); [|reflexivity]. destruct (b' s); auto.
+Qed.
+
+Lemma length_full2 (M w : Z) (v : R) : 0 <= w -> length (dat (full [M; w] v)) = (Z.to_nat M * Z.to_nat w)%nat.
+Proof. intros Hw. unfold full. cbn [dat]. rewrite repeat_length. unfold prodZ. simpl. nia. Qed.
+
+Section Main2.
+Local Open Scope R_scope.
+Variables (a b : R) (z x zgrad xgrad : arr R) (nz nx : Z) (zend xend zsrc xsrc stepsize : R) (M : Z) (hg : bool).
+Hypothesis Az : axis z nz.
+Hypothesis Ax : axis x nx.
+Hypothesis Sz : shape zgrad = [nz; nx].
+Hypothesis Sx : shape xgrad = [nz; nx].
+Local Notation o := [a; b].
+Local Notation z' := (shift_axis a z).
+Local Notation x' := (shift_axis b x).
+Local Notation r0 := (@nofZ R NumR 0%Z).
+Local Notation St := (@St2 R).
+Local Notation core fuel := (u_ray2d_core_v fuel z x zgrad xgrad zend xend zsrc xsrc stepsize M hg).
+Local Notation core' fuel :=
+  (u_ray2d_core_v fuel z' x' zgrad xgrad (a + zend) (b + xend) (a + zsrc) (b + xsrc) stepsize M hg).
+
+Lemma hull2_shift : hull2 z' x' (a + zend) (b + xend) = hull2 z x zend xend.
+Proof.
+  change (hull2 z' x' (a + zend) (b + xend)) with (inhullb z' (a + zend) && inhullb x' (b + xend))%bool.
+  rewrite (inhullb_shift a z nz zend Az), (inhullb_shift b x nx xend Ax). reflexivity.
+Qed.
+
+Lemma ginit2_shift : ginit2 z' x' (a + zend) (b + xend) M hg = SH o (ginit2 z x zend xend M hg).
+Proof.
+  unfold ginit2, SH. cbn [s_count s_delta s_lower s_nfree s_pcur s_ray s_upper fst snd].
+  rewrite (cell_lo_shift a z nz Az), (cell_lo_shift b x nx Ax), (cell_up_shift a z nz Az), (cell_up_shift b x nx Ax).
+  assert (Er : set_sub (full [M; 2%Z] r0) [0%Z] (of_list [a + zend; b + xend]) =
+               shray o 1 (set_sub (full [M; 2%Z] r0) [0%Z] (of_list [zend; xend]))).
+  { change (of_list [a + zend; b + xend]) with (vsh o (of_list [zend; xend])).
+    rewrite <- (shray_0 o (full [M; 2%Z] r0)) at 1.
+    apply (set_sub_shray o M 0); [reflexivity|apply (length_full2 M 2); lia|lia|lia|reflexivity]. }
+  rewrite Er. destruct hg; reflexivity.
+Qed.
+
+Lemma ginit2_inv : InvS hg (ginit2 z x zend xend M hg) /\ RInv 2 M (ginit2 z x zend xend M hg).
+Proof.
+  split.
+  - split; [apply vec2_of_list|]. split; [reflexivity|]. intros ->. split; apply vec2_of_list.
+  - apply (RInv_full 2 M (of_list [zend; xend]) 1); [lia|reflexivity|reflexivity].
+Qed.
+
+(* the translated run is the image of the original run, iteration by iteration *)
+Lemma loop2_shift fuel :
+  while_fuel fuel (tcond2 (a + zsrc) (b + xsrc) stepsize)
+             (gbody2 z' x' zgrad xgrad (a + zsrc) (b + xsrc) stepsize M hg)
+             (SH o (ginit2 z x zend xend M hg)) =
+  rmap (SH o) (while_fuel fuel (tcond2 zsrc xsrc stepsize) (gbody2 z x zgrad xgrad zsrc xsrc stepsize M hg)
+                          (ginit2 z x zend xend M hg)) /\
+  (forall s1, while_fuel fuel (tcond2 zsrc xsrc stepsize) (gbody2 z x zgrad xgrad zsrc xsrc stepsize M hg)
+                         (ginit2 z x zend xend M hg) = Ok s1 -> InvS hg s1 /\ RInv 2 M s1).
+Proof.
+  apply (while_fuel_commute (SH o) (fun s => InvS hg s /\ RInv 2 M s)).
+  - intros s [Hi _]. apply tcond2_shift. apply Hi.
+  - intros s [Hi Hr] _. apply (gbody2_shift a b z x zgrad xgrad nz nx zsrc xsrc stepsize M Az Ax Sz Sx hg s Hi Hr).
+  - intros s s' [Hi Hr] _ E. exact (gbody2_inv z x zgrad xgrad zsrc xsrc stepsize M hg s s' Hi Hr E).
+  - exact ginit2_inv.
+Qed.
+
+(* the core as the modular loop *)
+Lemma core2_modular (zz xx : arr R) (ze xe zs xs : R) fuel : hull2 zz xx ze xe = true ->
+  u_ray2d_core_v fuel zz xx zgrad xgrad ze xe zs xs stepsize M hg =
+  rbind (while_fuel fuel (tcond2 zs xs stepsize) (gbody2 zz xx zgrad xgrad zs xs stepsize M hg) (ginit2 zz xx ze xe M hg))
+        (finG (nfree_max2 zz xx stepsize) (of_list [zs; xs]) M).
+Proof.
+  intros Hh. rewrite (core2_eq zz xx zgrad xgrad ze xe zs xs stepsize hg M fuel Hh). unfold run.
+  rewrite (init2_spec zz xx zgrad xgrad ze xe zs xs stepsize M hg).
+  rewrite (while_fuel_ext' _ (tcond2 zs xs stepsize) _ (gbody2 zz xx zgrad xgrad zs xs stepsize M hg)
+             (cond2_spec zz xx zgrad xgrad ze xe zs xs stepsize hg)
+             (body2_spec zz xx zgrad xgrad ze xe zs xs stepsize M hg)).
+  reflexivity.
+Qed.
+
+Theorem ray2d_core_translate fuel :
+  match core fuel with
+  | Ok (ray, c) =>
+      shape ray = [M; 2%Z] /\ length (dat ray) = (Z.to_nat M * 2)%nat /\
+      exists k, core' fuel = Ok (shray o k ray, c) /\ ((0 <= c)%Z -> k = (c + 1)%Z) /\ (c = (-1)%Z -> k = 0%Z)
+  | Raise e => core' fuel = Raise e
+  | OutOfFuel => core' fuel = OutOfFuel
+  end.
+Proof.
+  destruct (hull2 z x zend xend) eqn:Hh.
+  - pose proof Hh as Hh'. rewrite <- hull2_shift in Hh'.
+    rewrite (core2_modular z x zend xend zsrc xsrc fuel Hh), (core2_modular z' x' _ _ _ _ fuel Hh').
+    rewrite ginit2_shift. destruct (loop2_shift fuel) as [-> Hfin].
+    destruct (while_fuel fuel _ _ (ginit2 z x zend xend M hg)) as [s1| |] eqn:Ew; cbn [rmap rbind]; try reflexivity.
+    destruct (Hfin s1 eq_refl) as [Hi (Hc & Sr & Lr)].
+    unfold finG. rewrite (nfree_max2_shift a b z x nz nx Az Ax).
+    destruct s1 as [[[[[[c d] l] n] p] r] u]. unfold SH, btest.
+    cbn [s_count s_delta s_lower s_nfree s_pcur s_ray s_upper fst snd] in *.
+    destruct ((M <=? c)%Z || (nfree_max2 z x stepsize <? n)%Z) eqn:Eb.
+    + split; [exact Sr|]. split; [exact Lr|]. exists c. split; [reflexivity|]. split; intros; lia.
+    + apply orb_false_elim in Eb. destruct Eb as [Eb _]. apply Z.leb_gt in Eb.
+      split; [exact Sr|]. split; [cbn [set_sub dat]; rewrite upd_block_length; exact Lr|].
+      exists (c + 1)%Z. split; [|split; intros; lia].
+      change (of_list [a + zsrc; b + xsrc]) with (vsh o (of_list [zsrc; xsrc])).
+      rewrite (set_sub_shray o M c r (of_list [zsrc; xsrc]) Sr Lr Hc (or_introl Eb) eq_refl). reflexivity.
+  - pose proof Hh as Hh'. rewrite <- hull2_shift in Hh'.
+    rewrite (ray2d_core_outside z x zgrad xgrad zend xend zsrc xsrc stepsize M hg Hh fuel).
+    rewrite (ray2d_core_outside z' x' zgrad xgrad _ _ _ _ stepsize M hg Hh' fuel).
+    split; [reflexivity|]. split; [apply (length_full2 M 2); lia|].
+    exists 0%Z. rewrite shray_0. split; [reflexivity|]. split; intros; lia.
+Qed.
+
+(* (T1) as a statement about the stored rows: same count, rows 0..count translated, the other rows
+   (never written: zeros) identical; the outcomes -1, -2 and fuel exhaustion coincide *)
+Corollary ray2d_core_translate_rows fuel ray c : core fuel = Ok (ray, c) ->
+  exists ray', core' fuel = Ok (ray', c) /\ shape ray' = shape ray /\ length (dat ray') = length (dat ray) /\
+    (forall k j, (0 <= k <= c)%Z -> (0 <= j < 2)%Z ->
+       get 0 ray' [k; j] = nth (Z.to_nat j) o 0 + get 0 ray [k; j]) /\
+    ((-1 <= c)%Z -> forall k j, (c < k < M)%Z -> (0 <= j < 2)%Z -> get 0 ray' [k; j] = get 0 ray [k; j]).
+Proof.
+  intros Hc. pose proof (ray2d_core_translate fuel) as Ht. rewrite Hc in Ht.
+  destruct Ht as (Sr & Lr & k & Hc' & Hk1 & Hk2).
+  destruct (ray2d_core_count_range _ _ _ _ _ _ _ _ _ _ _ _ _ _ Hc) as [Hrange _].
+  exists (shray o k ray). split; [exact Hc'|]. split; [reflexivity|]. split; [apply length_shray|]. split.
+  - intros i j Hi Hj. rewrite (get_shray o M k i j ray Sr Lr) by (simpl; lia).
+    rewrite Hk1 by lia. destruct (Z.ltb_spec i (c + 1)); [reflexivity|lia].
+  - intros Hge i j Hi Hj. rewrite (get_shray o M k i j ray Sr Lr) by (simpl; lia).
+    assert (Ek : k = (c + 1)%Z) by (destruct (Z.eq_dec c (-1)) as [->|]; [apply Hk2; reflexivity|apply Hk1; lia]).
+    rewrite Ek. destruct (Z.ltb_spec i (c + 1)); [lia|ring].
+Qed.
+Corollary ray2d_core_translate_fuel fuel : core fuel = OutOfFuel <-> core' fuel = OutOfFuel.
+Proof.
+  pose proof (ray2d_core_translate fuel) as Ht. destruct (core fuel) as [[ray c]|e|].
+  - destruct Ht as (_ & _ & k & -> & _). split; discriminate.
+  - rewrite Ht. split; discriminate.
+  - rewrite Ht. split; reflexivity.
+Qed.
+
+(* ---------------------------------------------------------------------------------------- *)
+(* (T2) the wrapper _ray2d and the entry point ray2d (single end point)                       *)
+(* ---------------------------------------------------------------------------------------- *)
+Local Notation single fuel := (u_ray2d_v fuel z x zgrad xgrad zend xend zsrc xsrc stepsize M hg).
+Local Notation single' fuel :=
+  (u_ray2d_v fuel z' x' zgrad xgrad (a + zend) (b + xend) (a + zsrc) (b + xsrc) stepsize M hg).
+
+Theorem ray2d_translate fuel :
+  match single fuel with
+  | Ok (ray, c) =>
+      (1 <= c < M)%Z /\ shape ray = [M; 2%Z] /\ length (dat ray) = (Z.to_nat M * 2)%nat /\
+      single' fuel = Ok (shray o (c + 1) ray, c)
+  | Raise e => single' fuel = Raise e
+  | OutOfFuel => single' fuel = OutOfFuel
+  end.
+Proof.
+  unfold u_ray2d_v. pose proof (ray2d_core_translate fuel) as Ht.
+  destruct (core fuel) as [[ray c]|e|] eqn:Hc; cbn [rbind fst snd].
+  - destruct Ht as (Sr & Lr & k & -> & Hk1 & Hk2). cbn [rbind fst snd].
+    destruct (ray2d_core_count_range _ _ _ _ _ _ _ _ _ _ _ _ _ _ Hc) as [Hrange _].
+    destruct (Z.eqb_spec c (-1)); [reflexivity|]. destruct (Z.eqb_spec c (-2)); [reflexivity|].
+    rewrite Hk1 by lia. split; [lia|]. split; [exact Sr|]. split; [exact Lr|reflexivity].
+  - rewrite Ht. reflexivity.
+  - rewrite Ht. reflexivity.
+Qed.
+
+End Main2.
+
+(* the polyline returned by ray2d for one end point: every vertex is translated by (a, b) *)
+Theorem ray2d_1_translate (a b : R) (z x zgrad xgrad : arr R) (nz nx : Z) (p src : arr R) (stepsize : R)
+        (M : Z) (hg : bool) (fuel : nat) :
+  axis z nz -> axis x nx -> shape zgrad = [nz; nx] -> shape xgrad = [nz; nx] -> vec2 p -> vec2 src ->
+  match ray2d_1 fuel z x zgrad xgrad p src stepsize M hg with
+  | Ok r => ray2d_1 fuel (shift_axis a z) (shift_axis b x) zgrad xgrad (vsh [a; b] p) (vsh [a; b] src) stepsize M hg
+            = Ok (addvec [a; b] r)
+  | Raise e => ray2d_1 fuel (shift_axis a z) (shift_axis b x) zgrad xgrad (vsh [a; b] p) (vsh [a; b] src) stepsize M hg
+               = Raise e
+  | OutOfFuel => ray2d_1 fuel (shift_axis a z) (shift_axis b x) zgrad xgrad (vsh [a; b] p) (vsh [a; b] src) stepsize M hg
+                 = OutOfFuel
+  end.
+Proof.
+  intros Az Ax Sz Sx Hp Hs. unfold ray2d_1.
+  destruct (get_vsh2 a b p Hp) as [-> ->]. destruct (get_vsh2 a b src Hs) as [-> ->].
+  pose proof (ray2d_translate a b z x zgrad xgrad nz nx (get (nofZ 0) p [0]) (get (nofZ 0) p [1])
+                (get (nofZ 0) src [0]) (get (nofZ 0) src [1]) stepsize M hg Az Ax Sz Sx fuel) as Ht.
+  destruct (u_ray2d_v fuel z x zgrad xgrad _ _ _ _ stepsize M hg) as [[ray c]|e|]; cbn [rbind].
+  - destruct Ht as (Hc & Sr & Lr & ->). cbn [rbind fst snd]. f_equal.
+    apply (rev_prefix_shray [a; b] M c ray Sr Lr). lia.
+  - rewrite Ht. reflexivity.
+  - rewrite Ht. reflexivity.
+Qed.
+
+(* vertex i of the translated polyline *)
+Corollary ray2d_1_translate_vertices (a b : R) (z x zgrad xgrad : arr R) (nz nx : Z) (p src : arr R)
+          (stepsize : R) (M : Z) (hg : bool) (fuel : nat) (r : arr R) :
+  axis z nz -> axis x nx -> shape zgrad = [nz; nx] -> shape xgrad = [nz; nx] -> vec2 p -> vec2 src ->
+  ray2d_1 fuel z x zgrad xgrad p src stepsize M hg = Ok r ->
+  exists r', ray2d_1 fuel (shift_axis a z) (shift_axis b x) zgrad xgrad (vsh [a; b] p) (vsh [a; b] src)
+                     stepsize M hg = Ok r' /\ shape r' = shape r /\
+    forall i, 0 <= i < dim r 0%nat ->
+      get (nofZ 0) r' [i; 0] = (a + get (nofZ 0%Z) r [i; 0%Z])%R /\ get (nofZ 0) r' [i; 1] = (b + get (nofZ 0%Z) r [i; 1%Z])%R.
+Proof.
+  intros Az Ax Sz Sx Hp Hs Hr.
+  pose proof (ray2d_1_translate a b z x zgrad xgrad nz nx p src stepsize M hg fuel Az Ax Sz Sx Hp Hs) as Ht.
+  rewrite Hr in Ht. exists (addvec [a; b] r). split; [exact Ht|]. split; [reflexivity|].
+  unfold ray2d_1 in Hr.
+  pose proof (ray2d_translate a b z x zgrad xgrad nz nx (get (nofZ 0) p [0]) (get (nofZ 0) p [1])
+                (get (nofZ 0) src [0]) (get (nofZ 0) src [1]) stepsize M hg Az Ax Sz Sx fuel) as Hw.
+  destruct (u_ray2d_v fuel z x zgrad xgrad _ _ _ _ stepsize M hg) as [[ray c]|e|]; cbn [rbind fst snd] in Hr; try discriminate.
+  injection Hr as <-. destruct Hw as (Hc & Sr & Lr & _).
+  destruct (length_rev_prefix [a; b] M c ray Sr Lr ltac:(lia)) as [Sp Lp].
+  rewrite (dim2_0 _ _ _ Sp). intros i Hi.
+  split; [apply (get_addvec [a; b] (c + 1) i 0 _ Sp Lp)|apply (get_addvec [a; b] (c + 1) i 1 _ Sp Lp)]; simpl; lia.
+Qed.
